@@ -13,7 +13,11 @@ def loop_shape(fn, ctx, L):
        body   node id
     """
     n = fn.nodes[L]
-    out = {"kind": "other", "node": L, "body": n.get("body"), "var": None, "exits": loop_exits(fn, L)}
+    allx = loop_exits(fn, L)
+    # a `continue` ends one iteration, it does not truncate the loop: it is a per-item filter, equivalent to wrapping the
+    # rest of the body in the negated condition (branch facts at a statement already include that condition).
+    out = {"kind": "other", "node": L, "body": n.get("body"), "var": None, "exits": [e for e in allx if e[1] != "continue"],
+           "continues": [e for e in allx if e[1] == "continue"]}
     ini = fn.nodes[n["init"]] if n.get("init") is not None else None
     if not (ini and ini["k"] == "decl" and len(ini["vars"]) == 1 and ini["vars"][0].get("init") is not None):
         return out
@@ -151,3 +155,94 @@ def stmts_of(fn, blocknode):
     if n["k"] == "block":
         return [c for c in n["body"] if c is not None and fn.nodes[c]["k"] != "null"]
     return [blocknode]
+
+
+SIZE_METHODS = ("size", "rows", "outerSize", "innerSize", "cols")
+
+
+def covers(shp, container, start0=True):
+    """does loop `shp` visit every element of `container` (key), in order, without truncating exits?
+    iterator form  it = C.begin(); it != C.end(); ++it      index form  i = 0; i < C.size(); ++i  (size may be hoisted: keys inline it)"""
+    if shp is None or shp.get("exits"):
+        return False
+    if shp["kind"] == "iter":
+        return shp["bound"] == container
+    if shp["kind"] == "index" and shp.get("rel") == "<" and (not start0 or _unconv(shp["start"]) == ("lit", 0)):
+        b = _unconv(shp["bound"])
+        return b[0] == "mcall" and len(b) == 3 and b[1].split("::")[-1] in SIZE_METHODS and b[2] == container
+    return False
+
+
+def element_keys(shp, container):
+    """keys that denote the element visited in the current iteration of a loop for which covers(shp, container) holds"""
+    v = shp["var"]
+    if shp["kind"] == "iter":
+        return [("un", "*", v), ("op", "*", v), ("op", "->", v)]
+    out = [("op", "[]", container, v)]
+    for m in ("std::vector::at", "std::vector::operator[]"):
+        out.append(("mcall", m, container, v))
+    return out
+
+
+def is_element(key, shp, container):
+    """key is the visited element, possibly behind pointer dereferences"""
+    from .expr import key_subst
+    ek = element_keys(shp, container)
+    k = key
+    for _ in range(4):
+        if k in ek:
+            return True
+        if isinstance(k, tuple) and k[0] in ("un", "op") and k[1] in ("*", "->") and len(k) == 3:
+            k = k[2]
+        else:
+            break
+    return k in ek
+
+
+ZERO_KEYS = (("lit", 0), ("ctor", "std::complex", ("lit", 0), ("lit", 0)), ("ctor", "std::complex", ("lit", 0)), ("ctor", "std::complex"))
+
+
+def sum_over(fn, ctx, container):
+    """Recognise the fold   acc = 0; for (every element e of container) acc += term(e); return acc
+    in its loop forms (iterator loop, index loop with possibly hoisted size).
+    Returns a dict:
+      status 'ok'       loop=shape, acc=node of the +=, target=key of the accumulator, term=node of the added expression,
+                        zero=bool (accumulator is a local initialised to 0), returned=bool
+      status 'partial'  a recognised index/iterator loop adds terms but does not cover the container; why=text, node
+      status 'unknown'  no such loop (std::accumulate with a lambda, helper function, ...); why=text"""
+    from .facts import strip_targs
+    cands = []
+    for j, n in fn.walk(fn.body):
+        if (n["k"] == "bin" and n["op"] == "+=") or (n["k"] == "call" and n.get("ck") == "op" and n.get("op") == "+=" and len(n["args"]) == 2):
+            lhs = n["l"] if n["k"] == "bin" else n["args"][0]
+            rhs = n["r"] if n["k"] == "bin" else n["args"][1]
+            for L in enclosing_loops(fn, j):
+                if fn.nodes[L]["k"] != "for":
+                    continue
+                shp = loop_shape(fn, ctx, L)
+                from .expr import key_contains
+                mentions = any(isinstance(shp.get(x), tuple) and key_contains(shp[x], lambda y: y == container) for x in ("start", "bound"))
+                if mentions:
+                    cands.append((j, lhs, rhs, shp))
+                    break
+    if not cands:
+        algo = [strip_targs(n.get("cname") or "") for j, n in fn.walk(fn.body) if n["k"] == "call" and strip_targs(n.get("cname") or "") in ("std::accumulate", "std::for_each", "std::inner_product", "std::transform")]
+        return {"status": "unknown", "why": ("uses %s (callable argument not analysed)" % algo[0]) if algo else "no loop over the container that accumulates with +="}
+    if len(cands) > 1:
+        return {"status": "unknown", "why": "several accumulations over the container"}
+    j, lhs, rhs, shp = cands[0]
+    if not covers(shp, container):
+        if shp["kind"] in ("index", "iter"):
+            return {"status": "partial", "node": j, "loop": shp, "why": "the loop does not visit every element (start %s, bound %s, early exits %s)" % (shp.get("start"), shp.get("bound"), [e[1] for e in shp["exits"]])}
+        return {"status": "unknown", "why": "loop form not recognised"}
+    tk = ctx.key(lhs, inline=False)
+    zero = False
+    returned = False
+    if tk[0] == "var":
+        dv = ctx.decls.get(tk[1])
+        zero = bool(dv and dv.get("init") is not None and _unconv(ctx.key(dv["init"])) in ZERO_KEYS)
+        if dv and dv.get("init") is None:
+            # declared, then assigned 0 before the loop
+            zero = any(fn.nodes[m]["k"] == "bin" and fn.nodes[m]["op"] == "=" and ctx.key(fn.nodes[m]["r"]) in ZERO_KEYS and not enclosing_loops(fn, m) for m in ctx.mut.get(tk[1], []))
+        returned = any(m["k"] == "return" and m.get("sub") is not None and _unconv(ctx.key(m["sub"], inline=False))[:2] == tk[:2] for _, m in fn.walk(fn.body))
+    return {"status": "ok", "loop": shp, "acc": j, "target": tk, "term": rhs, "zero": zero, "returned": returned, "filtered": bool(shp["continues"])}
